@@ -527,5 +527,135 @@ theorem lookupScore_step {bg : List Rat} (hbg : ∀ b ∈ bg, 0 ≤ b) (rows : L
     rw [mul_div_self hg, sub_mul, mul_div_self hg] at this
     exact this
 
+/-! ### the window handed to the next refinement is sound -/
+
+@[simp] theorem ceil_rat (a : Rat) : Num.ceil a = Rat.ceil a := rfl
+
+theorem nextWindow_eq (rc : Rec Rat) (alpha : Int) :
+    nextWindow rc alpha =
+      (10 * (alpha - rc.offsets.sum - halfWidth rc), 10 * (alpha - rc.offsets.sum + halfWidth rc)) := by
+  have h1 : (((alpha - rc.offsets.sum : Int) : Rat) - ((halfWidth rc : Int) : Rat)) * 10 =
+      ((10 * (alpha - rc.offsets.sum - halfWidth rc) : Int) : Rat) := by push_cast; ring
+  have h2 : (((alpha - rc.offsets.sum : Int) : Rat) + ((halfWidth rc : Int) : Rat)) * 10 =
+      ((10 * (alpha - rc.offsets.sum + halfWidth rc) : Int) : Rat) := by push_cast; ring
+  simp only [nextWindow, ofInt_rat, sub_rat, add_rat, mul_rat, ten_rat, floor_rat]
+  rw [h1, h2, Int.floor_intCast, Int.floor_intCast]
+
+theorem halfWidth_ge (g : Rat) (rows : List (List Rat)) :
+    errorMax g rows + 1 / 2 ≤ ((halfWidth (recompute rows g) : Int) : Rat) := by
+  simp only [halfWidth, ceil_rat, add_rat, half_rat]
+  exact Rat.le_ceil
+
+/-- **window lemma.**  If a step at granularity `g` has not converged — `P(D ≥ α) ≤ p` and some
+    `α_e ≥ α - E` has `P(D ≥ α_e) ≥ p` — then the window `ScoresIterator` hands to the next step,
+    moved to the integer scores of granularity `g/10` and extended by that step's rounding slack,
+    is sound for `p`. -/
+theorem sound_next {bg : List Rat} (hbg : ∀ b ∈ bg, 0 ≤ b) (rows : List (List Rat)) {g : Rat}
+    (hg : 0 < g) {p : Rat} {alpha ae : Int}
+    (h1 : tailD bg (recompute rows g).im alpha ≤ p)
+    (h2 : ((alpha - ae : Int) : Rat) ≤ errorMax g rows)
+    (h3 : p ≤ tailD bg (recompute rows g).im ae) :
+    Sound bg (recompute rows (g / 10)).im p
+      ((nextWindow (recompute rows g) alpha).1 + (recompute rows (g / 10)).offsets.sum
+        - Rat.ceil (errorMax (g / 10) rows + 1))
+      ((nextWindow (recompute rows g) alpha).2 + (recompute rows (g / 10)).offsets.sum) := by
+  have hg' : 0 < g / 10 := by positivity
+  rw [nextWindow_eq]
+  simp only
+  set O := (recompute rows g).offsets.sum with hO
+  set O' := (recompute rows (g / 10)).offsets.sum with hO'
+  set c := halfWidth (recompute rows g) with hc
+  set E := errorMax g rows with hE
+  set E' := errorMax (g / 10) rows with hE'
+  set sl := Rat.ceil (E' + 1) with hsl
+  have hcE : E + 1 / 2 ≤ (c : Rat) := halfWidth_ge g rows
+  obtain ⟨hE0, _⟩ := errorMax_bounds g rows
+  obtain ⟨hE0', _⟩ := errorMax_bounds (g / 10) rows
+  rw [← hE] at hE0
+  rw [← hE'] at hE0'
+  have hslE : E' + 1 ≤ (sl : Rat) := Rat.le_ceil
+  have hc0 : 0 < c := by
+    have : (0 : Rat) < (c : Rat) := by linarith
+    exact_mod_cast this
+  have hsl0 : 0 < sl := by
+    have : (0 : Rat) < (sl : Rat) := by linarith
+    exact_mod_cast this
+  have hdiv : ∀ S : Rat, S / (g / 10) = 10 * (S / g) := by
+    intro S; field_simp
+  refine ⟨by omega, ?_, Or.inl ?_⟩
+  · -- P(D' > max') ≤ P(S ≥ x) ≤ P(D ≥ alpha) ≤ p
+    refine le_trans ?_ h1
+    set x : Rat := ((10 * (alpha - O + c) + 1 : Int) : Rat) * (g / 10) with hx
+    have s1 : tailD bg (recompute rows (g / 10)).im (10 * (alpha - O + c) + O' + 1) ≤ tail bg rows x := by
+      rw [tail, ← expect_pair_fst bg (g / 10) rows, tailD, ← expect_pair_snd bg (g / 10) rows]
+      apply expect_mono_reach hbg
+      rintro ⟨S, D'⟩ hreach
+      obtain ⟨r1, _⟩ : ((D' : Rat) ≤ S / (g / 10) + (O' : Rat)) ∧
+          S / (g / 10) + (O' : Rat) < (D' : Rat) + E' + 1 := rounding (g / 10) rows hreach
+      apply ite_le_ite
+      intro hD
+      have hD' : 10 * (alpha - O + c) + O' + 1 ≤ D' := hD
+      have hD'' : ((10 * (alpha - O + c) + O' + 1 : Int) : Rat) ≤ (D' : Rat) := by exact_mod_cast hD'
+      show x ≤ S
+      have : ((10 * (alpha - O + c) + 1 : Int) : Rat) ≤ S / (g / 10) := by
+        push_cast at hD'' ⊢; linarith
+      have := mul_le_mul_of_nonneg_right this (le_of_lt hg')
+      rwa [mul_div_self hg'] at this
+    have s2 : tail bg rows x ≤ tailD bg (recompute rows g).im alpha := by
+      rw [tail, ← expect_pair_fst bg g rows, tailD, ← expect_pair_snd bg g rows]
+      apply expect_mono_reach hbg
+      rintro ⟨S, D⟩ hreach
+      obtain ⟨_, r2⟩ : ((D : Rat) ≤ S / g + (O : Rat)) ∧ S / g + (O : Rat) < (D : Rat) + E + 1 :=
+        rounding g rows hreach
+      apply ite_le_ite
+      intro hS
+      have hS' : x ≤ S := hS
+      show alpha ≤ D
+      have e1 : x / g = ((10 * (alpha - O + c) + 1 : Int) : Rat) / 10 := by
+        rw [hx]; field_simp
+      have e2 : x / g ≤ S / g := div_le_div_of_nonneg_right hS' (le_of_lt hg)
+      have e3 : ((alpha : Int) : Rat) - 1 < (D : Rat) := by
+        rw [e1] at e2; push_cast at e2; linarith
+      have : alpha - 1 < D := by exact_mod_cast e3
+      omega
+    have e : 10 * (alpha - O + c) + O' + 1 = 10 * (alpha - O + c) + O' + 1 := rfl
+    exact le_trans s1 s2
+  · -- p ≤ P(D ≥ alpha_e) ≤ P(S ≥ y) ≤ P(D' ≥ min')
+    refine le_trans h3 ?_
+    set y : Rat := ((ae - O : Int) : Rat) * g with hy
+    have s1 : tailD bg (recompute rows g).im ae ≤ tail bg rows y := by
+      rw [tail, ← expect_pair_fst bg g rows, tailD, ← expect_pair_snd bg g rows]
+      apply expect_mono_reach hbg
+      rintro ⟨S, D⟩ hreach
+      obtain ⟨r1, _⟩ : ((D : Rat) ≤ S / g + (O : Rat)) ∧ S / g + (O : Rat) < (D : Rat) + E + 1 :=
+        rounding g rows hreach
+      apply ite_le_ite
+      intro hD
+      have hD' : ae ≤ D := hD
+      have hD'' : ((ae : Int) : Rat) ≤ (D : Rat) := by exact_mod_cast hD'
+      show y ≤ S
+      have : ((ae - O : Int) : Rat) ≤ S / g := by push_cast; linarith
+      have := mul_le_mul_of_nonneg_right this (le_of_lt hg)
+      rwa [mul_div_self hg] at this
+    have s2 : tail bg rows y ≤
+        tailD bg (recompute rows (g / 10)).im (10 * (alpha - O - c) + O' - sl) := by
+      rw [tail, ← expect_pair_fst bg (g / 10) rows, tailD, ← expect_pair_snd bg (g / 10) rows]
+      apply expect_mono_reach hbg
+      rintro ⟨S, D'⟩ hreach
+      obtain ⟨_, r2⟩ : ((D' : Rat) ≤ S / (g / 10) + (O' : Rat)) ∧
+          S / (g / 10) + (O' : Rat) < (D' : Rat) + E' + 1 := rounding (g / 10) rows hreach
+      apply ite_le_ite
+      intro hS
+      have hS' : y ≤ S := hS
+      show 10 * (alpha - O - c) + O' - sl ≤ D'
+      have e1 : y / g = ((ae - O : Int) : Rat) := by rw [hy]; field_simp
+      have e2 : y / g ≤ S / g := div_le_div_of_nonneg_right hS' (le_of_lt hg)
+      rw [hdiv] at r2
+      have e3 : ((10 * (alpha - O - c) + O' - sl : Int) : Rat) < (D' : Rat) := by
+        rw [e1] at e2; push_cast at e2 h2 ⊢; linarith
+      have : 10 * (alpha - O - c) + O' - sl < D' := by exact_mod_cast e3
+      omega
+    exact le_trans s1 s2
+
 end C13
 end LMV
